@@ -78,9 +78,9 @@ CHECKS = {
    "stateless bounded exhaustive exploration of event sequences (full depth + deviation-bounded + two-phase) on the real lifecycle stage",
    "Every event sequence in the stated bounds (all sequences to depth 3/4 over a 40-symbol alphabet derived from the detector's thresholds; all length-8..12 sequences with <=3..4 deviations over 48 symbols; all prefix/suffix splits over a shared table) is executed on parse_lifecycles_buffered_from_stream and compared with the identity stream: same messages, same order, lifecycle id non-zero and of the message's ECU. A coverage statement for the bounds, not a proof for unbounded streams.",
    "Trusted: the harness' stream generator and comparison code; alphabet choice (thresholds 1/2/10/30/60 s from both sides). Not covered: timestamps/reception deltas outside the alphabet, >3 ECUs.", "4 C05-C07"),
- "C06": ("mc-seq", "model_checking",
-   "stateless bounded exhaustive exploration of event sequences; table lookup inside every downstream-sender call",
-   "Same exploration as C05; the oracle looks the message's lifecycle id up through an evmap ReadHandle inside every call of the downstream sender (the delivery point) and requires an entry of the message's ECU. Cross-thread readers and consumer pacing are explored by the scheduler engine (C13 harness includes the same lookup in the consumer thread).",
+ "C06": ("mc-seq+mc-sched", "model_checking",
+   "stateless bounded exhaustive exploration of event sequences with a table lookup inside every downstream-sender call + controlled-scheduler exploration with the lookup in the consumer thread",
+   "Same exploration as C05; the oracle looks the message's lifecycle id up through an evmap ReadHandle inside every call of the downstream sender (the delivery point) and requires an entry of the message's ECU. The same check then runs under the scheduler engine: producer -> real lifecycle stage -> [sort] -> consumer thread over bounded channels of capacity 0/1/2, 8 streams driving every release path, every schedule within delay bound 2 (thorough 4) / preemption bound 1 (thorough 2): the consumer thread looks every received message up through its own read handle at reception (evidence key coverage.cross_thread).",
    "Trusted: evmap's publication semantics (a refresh makes entries visible to all readers); harness code.", "4 C05-C07"),
  "C07": ("mc-seq", "model_checking",
    "stateless bounded exhaustive exploration of event sequences; final-table and listing oracle",
@@ -119,7 +119,7 @@ def main():
         "add_only": True,
       },
       "engines": [
-        {"name": "mc-sched", "path": "/verif/mc-sched", "serves_properties": ["C13"],
+        {"name": "mc-sched", "path": "/verif/mc-sched", "serves_properties": ["C13", "C06"],
          "kind_free_text": "shuttle runtime + own bounded DFS scheduler over real adlt stage threads (cfg adlt_verif_sched)"},
         {"name": "mc-remote", "path": "/verif/mc/src/rem.rs", "serves_properties": ["C15", "C16"],
          "kind_free_text": "explorer in /verif/mc driving the hidden cfg(adlt_verif) subcommand 'adlt verif-driver' (real remote handler functions over an in-memory websocket, explicit message-arrival ticks)"},
